@@ -449,19 +449,21 @@ class ExcelCompiler:
 
         cell_or_range = self.cell_map[address]
 
-        if cell_or_range.value != value:  # pragma: no branch
+        old_value = cell_or_range.value
+        if old_value != value or type(old_value) is not type(value):
             # need to be able to 'set' an empty cell, set to not None
             cell_or_range.value = value
 
             # reset the node + its dependencies
             if not self.cycles:
-                self._reset(cell_or_range)
+                self._reset(cell_or_range, force=True)
 
             # set the value
             cell_or_range.value = value
 
-    def _reset(self, cell):
-        if cell.needs_calc:
+    def _reset(self, cell, force=False):
+        if cell.needs_calc and not force:
+            # force is for the cell being set, which might be set to None
             return
         self.log.info(f"Resetting {cell.address}")
         cell.value = None
